@@ -29,10 +29,22 @@ def content(toks):
     return [t for t in toks if t[0] in ("leaf", "u")]
 
 
-def perform(ctx, info, d, name, thunk, replay, reqs, metas, approved, keep_content=True):
+def perform(ctx, info, d, name, thunk, replay, reqs, metas, approved, keep_content=True, build=None):
     tr = Transform(d)
     st, val, added = ops.run_op(tr, thunk)
     ctx.count(f"{name}:{'approved' if approved else 'unapproved'}:{st}")
+    if build is not None and st not in ("hang",):
+        # exact tie of the builder models (lean/PM/StructEdit.lean): the step the real Transform recorded is the step the
+        # model builds; when the real edit raises, building + applying the model's step fails with the same class
+        breq = dict(build, op="structStep", s=info.lean_id, doc=info.node(d))
+        if st == "ok" and len(tr.steps) == 1:
+            reqs.append(breq)
+            metas.append(("builder " + name, replay, info.step(tr.steps[0])))
+            ctx.count(f"builder tie {name}: step compared")
+        elif st != "ok":
+            reqs.append(dict(breq, apply=True))
+            metas.append(("builder-fails " + name, dict(replay, raised=val), {"err": st}))
+            ctx.count(f"builder tie {name}: failure class compared")
     if st != "ok":
         if approved or st in ("internal", "hang"):
             ctx.violation(name + ("-approved-fails" if approved else "-internal"),
@@ -62,6 +74,10 @@ def run(ctx):
         outs = ctx.driver.run(reqs) if reqs else []
         for req, (op, replay, exp), out in zip(reqs, metas, outs):
             ctx.count("model_requests")
+            if op.startswith("builder-fails"):
+                if out != exp:
+                    ctx.mismatch(op, replay, exp, out if "err" in out else "model: the built step applies")
+                continue
             if out.get("ok") != exp:
                 ctx.mismatch(op, replay, exp if op != "apply" else "recorded document", out if ("err" in out or op != "apply") else "different document")
         del reqs[:], metas[:]
@@ -94,14 +110,16 @@ def run(ctx):
                         continue
                     if ok or (not bundled and rng.random() < 0.15) or rng.random() < 0.03:
                         if bundled or ok or True:
-                            perform(ctx, info, d, "split", lambda tr: tr.split(pos, depth), replay, reqs, metas, bool(ok) and bundled)
+                            perform(ctx, info, d, "split", lambda tr: tr.split(pos, depth), replay, reqs, metas, bool(ok) and bundled,
+                                    build={"k": "split", "pos": pos, "depth": depth})
                 # ---- can_join / join / join_point
                 st, ok = outcome(lambda: can_join(d, pos))
                 replay = dict(base, helper="can_join")
                 if st != "ok":
                     ctx.violation("can_join-raises", f"can_join raised {ok}", replay)
                 elif ok or rng.random() < 0.03:
-                    perform(ctx, info, d, "join", lambda tr: tr.join(pos), replay, reqs, metas, bool(ok) and bundled)
+                    perform(ctx, info, d, "join", lambda tr: tr.join(pos), replay, reqs, metas, bool(ok) and bundled,
+                            build={"k": "join", "pos": pos, "depth": 1})
                 for direction in (-1, 1):
                     st, jp = outcome(lambda: join_point(d, pos, direction))
                     replay = dict(base, helper="join_point", dir=direction)
@@ -111,7 +129,8 @@ def run(ctx):
                         if not (0 <= jp <= size):
                             ctx.violation("join_point-range", "join_point returned an out-of-range position", dict(replay, got=jp))
                         else:
-                            perform(ctx, info, d, "join", lambda tr: tr.join(jp), dict(replay, join_at=jp), reqs, metas, bundled)
+                            perform(ctx, info, d, "join", lambda tr: tr.join(jp), dict(replay, join_at=jp), reqs, metas, bundled,
+                                    build={"k": "join", "pos": jp, "depth": 1})
                 # ---- lift_target / lift, find_wrapping / wrap
                 for q in (pos, min(size, pos + rng.randint(1, 6))):
                     if q not in aligned and q != pos:
@@ -127,7 +146,8 @@ def run(ctx):
                         if not (0 <= tgt < br.depth):
                             ctx.violation("lift_target-range", "lift_target returned a depth outside [0, range depth)", dict(replay, target=tgt))
                         else:
-                            perform(ctx, info, d, "lift", lambda tr: tr.lift(br, tgt), dict(replay, target=tgt), reqs, metas, bundled)
+                            perform(ctx, info, d, "lift", lambda tr: tr.lift(br, tgt), dict(replay, target=tgt), reqs, metas, bundled,
+                                    build={"k": "lift", "from": br.from_.pos, "to": br.to.pos, "depth": br.depth, "target": tgt})
                     if block_types:
                         wt = rng.choice(block_types)
                         attrs = gen.gen_attrs(rng, wt)
@@ -137,7 +157,9 @@ def run(ctx):
                             ctx.violation("find_wrapping-raises", f"find_wrapping raised {wr}", replay)
                         elif wr is not None:
                             perform(ctx, info, d, "wrap", lambda tr: tr.wrap(br, wr), dict(replay, chain=[w.type.name for w in wr]),
-                                    reqs, metas, bundled)
+                                    reqs, metas, bundled,
+                                    build={"k": "wrap", "from": br.from_.pos, "to": br.to.pos, "depth": br.depth,
+                                           "wrappers": [[info.nid[w.type.name], info.attrs(w.type, w.attrs)] for w in wr]})
                 # ---- insert_point
                 nt = rng.choice(list(schema.nodes.values()))
                 st, ip = outcome(lambda: insert_point(d, pos, nt))
